@@ -21,6 +21,14 @@
 //verif:replace@C18c (*os.File).Write = Write
 //verif:replace@C18c (*os.File).Read = Read
 //verif:replace@C18c (*os.File).Close = Close
+//verif:replace@C18f os.OpenFile = OpenFile
+//verif:replace@C18f os.Open = Open
+//verif:replace@C18f os.Rename = Rename
+//verif:replace@C18f os.Remove = Remove
+//verif:replace@C18f (*os.File).WriteString = WriteString
+//verif:replace@C18f (*os.File).Write = Write
+//verif:replace@C18f (*os.File).Read = Read
+//verif:replace@C18f (*os.File).Close = Close
 //verif:replace@C18d os.OpenFile = OpenFile
 //verif:replace@C18d os.Open = Open
 //verif:replace@C18d os.Rename = Rename
